@@ -121,3 +121,26 @@ func sideSymmetryRule(c *core.Check, r *core.Rule, pkg string, files map[string]
 		r.Unknown("sibling pairs in "+pkg, "-", fmt.Sprintf("%d mirrored assignment pairs found, %d on the tree this rule was written for", len(pairs), floor))
 	}
 }
+
+// divLoopRule: loops whose only progress is an integer division need a divisor of at least 2 (1 when the dividend is
+// decremented first): dividing by 1 never reaches 0.
+func divLoopRule(c *core.Check, r *core.Rule, filter func(*ssa.Function) bool) int {
+	p := c.Prog
+	n := 0
+	for _, fn := range p.ModFuncs {
+		if !filter(fn) {
+			continue
+		}
+		for _, dl := range core.DivLoops(fn) {
+			n++
+			need := int64(2)
+			if dl.MinusOne {
+				need = 1
+			}
+			key := core.FuncName(fn) + " | loop " + opText(p, fn, dl.Div)
+			ok, why := core.ProveAtLeast(fn, dl.Div.Y, need, dl.Header)
+			r.Cond(ok, key, p.Pos(dl.Div.Pos()), fmt.Sprintf("divisor >= %d: %s", need, why), fmt.Sprintf("the loop only ends when repeated division reaches 0, which needs a divisor >= %d: %s", need, why))
+		}
+	}
+	return n
+}
